@@ -533,6 +533,20 @@ bool DependencyScan::RecomputeNodeDirty(Node* node, std::vector<Node*>* stack,
     dirty = true;
   }
 
+  if (!dirty) {
+    // A re-scan (Plan::RefreshDyndepDependents) must not take back a verdict
+    // the plan already acts on: an output that an earlier scan of this
+    // invocation marked dirty is still going to be rebuilt, whatever the
+    // information loaded since (e.g. a restat binding supplied by a dyndep
+    // file) makes of it now, so it is not ready.
+    for (auto o : edge->outputs_) {
+      if (o->dirty()) {
+        dirty = true;
+        break;
+      }
+    }
+  }
+
   // Finally, visit each output and update their dirty state if necessary.
   if (dirty) {
     for (auto o : edge->outputs_)
